@@ -693,6 +693,15 @@ def creators_rule(P, E, H):
                     r.error("SRC: %s: a branch depends on something the abstraction does not model" % root)
                     continue
                 rx = rx_live if (live or rx_dead is None) else rx_dead
+                if root == "observables::interval::interval":
+                    # interval numbers its ticks 0, 1, 2, ..: the i-th emission of a path carries i
+                    nums = [x[2] if len(x) > 2 else None for x in p.trace if x[0] == "sink_next"]
+                    if any(v_ is None for v_ in nums):
+                        raise_und = "interval emits a value the abstraction cannot number"
+                        r.instance((root, "tick numbering"), False, "not decided: " + raise_und)
+                    elif nums != list(range(len(nums))):
+                        r.violate((root, "creation", "tick numbering"),
+                                  "interval: a path emits the tick numbers %s; its definition is 0, 1, 2, .. (one more per period)" % nums, body=body)
                 if live:
                     for t_ in tr:
                         seen_fx.add(t_)
@@ -1458,6 +1467,8 @@ def retry_rule(P, E, H):
                     if good:
                         ok_map = (sn, sm)
                 r.instance((root, "retry polarity"), True, "attempts 1..5 x limits 0..5 under both role assignments")
+                if ok_map is not None:
+                    _retry_progress(P, r, root, hb, ts[0]["site"].body, S, ok_map)
                 if ok_map is None:
                     r.violate((root, "retry polarity", "attempt/limit"),
                               "retry(count): no reading of the two captured integers as (attempt, limit) makes the error handler resubscribe exactly "
@@ -1465,6 +1476,96 @@ def retry_rule(P, E, H):
         except Undecided as e:
             r.error("RETRY: %s not decidable in the abstraction: %s" % (name, e))
     return r
+
+
+def _affine_up(b, op, depth=0):
+    """an integer operand of closure `b` as ({upvar index: coefficient}, constant); Undecided when it is anything else"""
+    if depth > 12:
+        raise Undecided("integer expression too deep")
+    if op["k"] == "const":
+        if "int" in op:
+            return {}, int(op["int"])
+        raise Undecided("non-integer constant")
+    p = op["p"]
+    l = p[0]
+    proj = [e for e in p[1:] if e != "*"]
+    if b.kind == "closure" and l == 1 and len(proj) == 1:
+        k = proj[0].lstrip(".").split(":")[0]
+        if k.isdigit():
+            return {int(k): 1}, 0
+    if 1 <= l <= b.argc:
+        raise Undecided("integer is a parameter")
+    ds = [d for d in b.defs.get(l, []) if not (d[0] == "assign" and len(d[1]["lhs"]) > 1)]
+    if len(ds) != 1:
+        raise Undecided("integer local with %d definitions" % len(ds))
+    d = ds[0]
+    if d[0] != "assign":
+        t = d[1]
+        path = norm(t["fn"].get("path")) if t["fn"]["k"] == "def" else None
+        if path in ("std::clone::Clone::clone",) and t["args"]:
+            return _affine_up(b, t["args"][0], depth + 1)
+        raise Undecided("integer returned by %s" % path)
+    rv = d[1]["rv"]
+    if rv["k"] == "use" and not proj:
+        return _affine_up(b, rv["op"], depth + 1)
+    if rv["k"] == "ref":
+        return _affine_up(b, {"k": "copy", "p": rv["p"]}, depth + 1)
+    if rv["k"] == "cast":
+        return _affine_up(b, rv["op"], depth + 1)
+    if rv["k"] == "binop" and proj in ([], [".0"]) and rv["op"].startswith(("Add", "Sub")):
+        (xa, xk), (ya, yk) = _affine_up(b, rv["a"], depth + 1), _affine_up(b, rv["b"], depth + 1)
+        sg = 1 if rv["op"].startswith("Add") else -1
+        out = dict(xa)
+        for k_, v_ in ya.items():
+            out[k_] = out.get(k_, 0) + sg * v_
+        return {k_: v_ for k_, v_ in out.items() if v_}, xk + sg * yk
+    raise Undecided("integer from %s" % rv["k"])
+
+
+def _retry_progress(P, r, root, hb, sb, S, ok_map):
+    """retry(count): the attempt number starts at 1 and grows by exactly one per resubscription, the limit is handed on unchanged
+    (together with `resubscribe iff attempt < limit` this makes `count` the total number of subscriptions).  Read off the places
+    where the error handler's own closure is built: once by the per-subscribe code (first attempt), once inside the handler
+    (the next attempt)."""
+    sn, sm = ok_map
+    up_of = {}
+    for u in hb.upvars:
+        for th in (True, False):
+            for g in P.global_cell(hb, ("upvar", u["idx"], ()), through_helpers=th):
+                if S._sym(g) in (sn, sm):
+                    up_of[S._sym(g)] = u["idx"]
+    if set(up_of) != {sn, sm}:
+        r.instance((root, "retry progress"), False, "not decided: captured attempt / limit not identified")
+        return
+
+    def builds(b):
+        return [s_["rv"] for i in sorted(b.reach) for s_ in b.blocks[i]["stmts"]
+                if s_["k"] == "assign" and s_["rv"]["k"] == "agg" and s_["rv"].get("ak") == "closure" and s_["rv"].get("def") == hb.id]
+    nxt, first = builds(hb), (builds(sb) if sb is not None and sb.id != hb.id else [])
+    if not nxt or not first:
+        r.instance((root, "retry progress"), False, "not decided: the handler's own closure is built %d time(s) in the handler, %d in the per-subscribe code"
+                   % (len(nxt), len(first)))
+        return
+    try:
+        for rv in nxt:
+            (ca, ck), (la, lk) = _affine_up(hb, rv["ops"][up_of[sn]]), _affine_up(hb, rv["ops"][up_of[sm]])
+            r.instance((root, "retry progress", "next attempt"), True, "attempt' = %s%+d, limit' = %s%+d" % (ca, ck, la, lk))
+            if ca != {up_of[sn]: 1} or ck != 1:
+                r.violate((root, "retry progress", "attempt does not grow by one"),
+                          "retry(count): the resubscription made by the error handler numbers the next attempt as %s%+d of its own captures instead "
+                          "of attempt+1: the limit is reached too early, too late or never" % (ca, ck), body=hb)
+            if la != {up_of[sm]: 1} or lk != 0:
+                r.violate((root, "retry progress", "limit changes between attempts"),
+                          "retry(count): the limit handed to the next attempt is %s%+d of the handler's captures, not the limit itself" % (la, lk), body=hb)
+        for rv in first:
+            ca, ck = _affine_up(sb, rv["ops"][up_of[sn]])
+            r.instance((root, "retry progress", "first attempt"), True, "attempt = %s%+d" % (ca, ck))
+            if ca or ck != 1:
+                r.violate((root, "retry progress", "first attempt is not number 1"),
+                          "retry(count): the first subscription is numbered %s%+d, not 1: with `resubscribe while attempt < count` the source is "
+                          "subscribed %s than count times" % (ca, ck, "more" if not ca and ck < 1 else "fewer"), body=sb)
+    except Undecided as e:
+        r.instance((root, "retry progress"), False, "not decided: %s" % e)
 
 
 # ---------------------------------------------------------------------------- concat (C03)
